@@ -674,7 +674,7 @@ pub unsafe extern "C" fn biscuit_sealed_size(biscuit: Option<&Biscuit>) -> usize
 
     let biscuit = biscuit.unwrap();
 
-    match biscuit.0.serialized_size() {
+    match biscuit.0.seal().and_then(|sealed| sealed.serialized_size()) {
         Ok(sz) => sz,
         Err(e) => {
             update_last_error(Error::Biscuit(e));
@@ -732,7 +732,7 @@ pub unsafe extern "C" fn biscuit_serialize_sealed(
     match (*biscuit).0.seal() {
         Ok(b) => match b.to_vec() {
             Ok(v) => {
-                let size = match biscuit.0.serialized_size() {
+                let size = match b.serialized_size() {
                     Ok(sz) => sz,
                     Err(e) => {
                         update_last_error(Error::Biscuit(e));
